@@ -280,9 +280,39 @@ impl<'a, T: Elem + SatisfyTraits<Tr>, M: MemCaps, Tr: ?Sized + TrCaps> Cx<'a, T,
         if it.size_hint() != (n, Some(n)) {
             self.note(format!("size_hint()={:?} but len()={}", it.size_hint(), n));
         }
+        let probe = |e: &I::Item| e.downcast_ref::<T>().map(probe_val).unwrap_or(Val::Garbage(u64::MAX));
         match end {
             End::Drop => drop(it),
             End::Forget => std::mem::forget(it),
+            End::Count => {
+                let c = it.count();
+                self.len_report(c);
+            }
+            End::Last => {
+                // through by_ref(): the yielded handle must be looked at while its iterator is alive (an item that outlives its
+                // drain/splice iterator is the known C16 finding D16, not what this family is about)
+                let x = it.by_ref().last().map(|e| probe(&e)).unwrap_or(Val::None);
+                self.val(x);
+                drop(it);
+            }
+            End::Fold => {
+                let xs = it.fold(Vec::new(), |mut a, e| {
+                    a.push(probe(&e));
+                    a
+                });
+                xs.into_iter().for_each(|x| self.val(x));
+            }
+            End::RFold => {
+                let xs = it.rfold(Vec::new(), |mut a, e| {
+                    a.push(probe(&e));
+                    a
+                });
+                xs.into_iter().for_each(|x| self.val(x));
+            }
+            End::StepBy2 => {
+                let xs: Vec<Val> = it.step_by(2).map(|e| probe(&e)).collect();
+                xs.into_iter().for_each(|x| self.val(x));
+            }
         }
     }
 
@@ -315,6 +345,32 @@ impl<'a, T: Elem + SatisfyTraits<Tr>, M: MemCaps, Tr: ?Sized + TrCaps> Cx<'a, T,
         match end {
             End::Drop => drop(it),
             End::Forget => std::mem::forget(it),
+            End::Count => {
+                let c = it.count();
+                self.len_report(c);
+            }
+            End::Last => {
+                let x = it.last().map(|e| probe_val(&e)).unwrap_or(Val::None);
+                self.val(x);
+            }
+            End::Fold => {
+                let xs = it.fold(Vec::new(), |mut a, e| {
+                    a.push(probe_val(&e));
+                    a
+                });
+                xs.into_iter().for_each(|x| self.val(x));
+            }
+            End::RFold => {
+                let xs = it.rfold(Vec::new(), |mut a, e| {
+                    a.push(probe_val(&e));
+                    a
+                });
+                xs.into_iter().for_each(|x| self.val(x));
+            }
+            End::StepBy2 => {
+                let xs: Vec<Val> = it.step_by(2).map(|e| probe_val(&e)).collect();
+                xs.into_iter().for_each(|x| self.val(x));
+            }
         }
     }
 
@@ -392,7 +448,7 @@ impl<'a, T: Elem + SatisfyTraits<Tr>, M: MemCaps, Tr: ?Sized + TrCaps> Cx<'a, T,
                     self.out.unsupported = true;
                 }
             }
-            Op::IterScript { v, how, script, skips, clone_at } => self.exec_iter_script(*v, *how, script, skips, *clone_at),
+            Op::IterScript { v, how, script, skips, clone_at, end } => self.exec_iter_script(*v, *how, script, skips, *clone_at, *end),
             Op::ViewWrite { v, at, via, id, w, j } => self.exec_view_write(*v, *at, *via, *id, *w, *j),
             Op::CloneEmptyIn { v, target } => match target {
                 #[cfg(feature = "alloc")]
@@ -676,7 +732,7 @@ impl<'a, T: Elem + SatisfyTraits<Tr>, M: MemCaps, Tr: ?Sized + TrCaps> Cx<'a, T,
         }
     }
 
-    fn exec_iter_script(&mut self, v: usize, how: IterHow, script: &[bool], skips: &[u8], clone_at: Option<usize>) {
+    fn exec_iter_script(&mut self, v: usize, how: IterHow, script: &[bool], skips: &[u8], clone_at: Option<usize>, end: End) {
         let bound = self.vec(v).len().saturating_add(4);
         macro_rules! steps {
             ($it:ident, $probe:expr, $n:ident, $pre:block) => {{
@@ -704,6 +760,35 @@ impl<'a, T: Elem + SatisfyTraits<Tr>, M: MemCaps, Tr: ?Sized + TrCaps> Cx<'a, T,
                 }
                 let l = $it.len();
                 self.len_report(l);
+                match end {
+                    End::Drop | End::Forget => {}
+                    End::Count => {
+                        let c = $it.by_ref().count();
+                        self.len_report(c);
+                    }
+                    End::Last => {
+                        let x = $it.by_ref().last().map(|e| $probe(e)).unwrap_or(Val::None);
+                        self.val(x);
+                    }
+                    End::Fold => {
+                        let xs = $it.by_ref().fold(Vec::new(), |mut a, e| {
+                            a.push($probe(e));
+                            a
+                        });
+                        xs.into_iter().for_each(|x| self.val(x));
+                    }
+                    End::RFold => {
+                        let xs = $it.by_ref().rfold(Vec::new(), |mut a, e| {
+                            a.push($probe(e));
+                            a
+                        });
+                        xs.into_iter().for_each(|x| self.val(x));
+                    }
+                    End::StepBy2 => {
+                        let xs: Vec<Val> = $it.by_ref().step_by(2).map(|e| $probe(e)).collect();
+                        xs.into_iter().for_each(|x| self.val(x));
+                    }
+                }
             }};
         }
         macro_rules! drain_clone {
